@@ -66,8 +66,17 @@ type lsEnv struct {
 	undecidedIf string
 }
 
+// lsPos: a position relative to the cursor on entry of the step: same epoch and offset = equal.
+// A cursor advance by an unknown positive amount (the length of a comment) starts a new epoch.
+type lsPos struct{ ep, off int }
+
 type lsState struct {
-	fresh  bool
+	fresh  bool // mark == cur (kept in step by sync)
+	cur    lsPos
+	mark   lsPos
+	poss   map[types.Object]lsPos // token.Pos locals
+	alias  map[types.Object]bool  // local slices that alias the line table
+	nextEp int
 	bools  map[types.Object]bool
 	ints   map[types.Object]int64
 	breaks int
@@ -82,7 +91,13 @@ type lsState struct {
 }
 
 func (s *lsState) clone() *lsState {
-	n := &lsState{fresh: s.fresh, bools: map[types.Object]bool{}, ints: map[types.Object]int64{}, breaks: s.breaks, done: s.done, cont: s.cont, advs: s.advs, inner: s.inner}
+	n := &lsState{fresh: s.fresh, cur: s.cur, mark: s.mark, nextEp: s.nextEp, poss: map[types.Object]lsPos{}, alias: map[types.Object]bool{}, bools: map[types.Object]bool{}, ints: map[types.Object]int64{}, breaks: s.breaks, done: s.done, cont: s.cont, advs: s.advs, inner: s.inner}
+	for k, v := range s.poss {
+		n.poss[k] = v
+	}
+	for k, v := range s.alias {
+		n.alias[k] = v
+	}
 	for k, v := range s.bools {
 		n.bools[k] = v
 	}
@@ -93,6 +108,43 @@ func (s *lsState) clone() *lsState {
 	return n
 }
 
+func newLsState(fresh bool) *lsState {
+	s := &lsState{bools: map[types.Object]bool{}, ints: map[types.Object]int64{}, poss: map[types.Object]lsPos{}, alias: map[types.Object]bool{}}
+	s.setFresh(fresh)
+	return s
+}
+
+// setFresh re-bases the positions: the cursor is the origin, the marker equals it or not.
+func (s *lsState) setFresh(fresh bool) {
+	s.cur = lsPos{0, 0}
+	if fresh {
+		s.mark = lsPos{0, 0}
+	} else {
+		s.mark = lsPos{-1, 0}
+	}
+	s.fresh = fresh
+	s.nextEp = 0
+}
+
+func (s *lsState) sync() { s.fresh = s.mark == s.cur }
+
+// rebase: at a step boundary only the relation marker == cursor (and, for position locals that
+// live across steps, whether they equal the cursor) is kept.
+func (s *lsState) rebase(drop func(types.Object) bool) {
+	old := s.cur
+	fresh := s.mark == s.cur
+	for o, p := range s.poss {
+		if drop(o) {
+			delete(s.poss, o)
+		} else if p == old {
+			s.poss[o] = lsPos{0, 0}
+		} else {
+			s.poss[o] = lsPos{-2, 0}
+		}
+	}
+	s.setFresh(fresh)
+}
+
 func (s *lsState) key() string {
 	var parts []string
 	for k, v := range s.bools {
@@ -100,6 +152,9 @@ func (s *lsState) key() string {
 	}
 	for k, v := range s.ints {
 		parts = append(parts, fmt.Sprintf("%s@%d=%d", k.Name(), k.Pos(), v))
+	}
+	for k, v := range s.poss {
+		parts = append(parts, fmt.Sprintf("%s@%d=%v", k.Name(), k.Pos(), v))
 	}
 	sort.Strings(parts)
 	return fmt.Sprintf("fresh=%v %s", s.fresh, strings.Join(parts, " "))
@@ -165,7 +220,7 @@ func (v *lsEval) evalInt(s *lsState, x ast.Expr) (int64, bool) {
 					}
 					saved := v.env.dObj
 					v.env.dObj = v.info.Defs[fd.Type.Params.List[0].Names[0]]
-					sub := &lsState{fresh: s.fresh, bools: map[types.Object]bool{}, ints: map[types.Object]int64{}}
+					sub := newLsState(s.fresh)
 					var r int64
 					sub.ret = &r
 					sub.retWanted = true
@@ -269,9 +324,14 @@ func (v *lsEval) evalBool(s *lsState, x ast.Expr) (bool, bool) {
 			return false, false
 		case token.EQL, token.NEQ:
 			neg := b.Op == token.NEQ
-			// marker == cursor
-			if (v.isField(b.X, "cursor") && v.isField(b.Y, "cursorAtNewLine")) || (v.isField(b.Y, "cursor") && v.isField(b.X, "cursorAtNewLine")) {
-				return s.fresh != neg, true
+			// marker == cursor (or any two positions over them and position locals)
+			if isTokenPos(v.info.TypeOf(b.X)) && isTokenPos(v.info.TypeOf(b.Y)) {
+				if p1, ok1 := v.posVal(s, b.X); ok1 {
+					if p2, ok2 := v.posVal(s, b.Y); ok2 {
+						return (p1 == p2) != neg, true
+					}
+				}
+				return false, false
 			}
 			// d == "\n"
 			for _, p := range [][2]ast.Expr{{b.X, b.Y}, {b.Y, b.X}} {
@@ -324,6 +384,57 @@ func (v *lsEval) evalBool(s *lsState, x ast.Expr) (bool, bool) {
 	return false, false
 }
 
+// posVal: a token.Pos-valued expression over the cursor, the marker and position locals.
+func (v *lsEval) posVal(s *lsState, x ast.Expr) (lsPos, bool) {
+	x = ast.Unparen(x)
+	switch {
+	case v.isField(x, "cursor"):
+		return s.cur, true
+	case v.isField(x, "cursorAtNewLine"):
+		return s.mark, true
+	}
+	switch t := x.(type) {
+	case *ast.Ident:
+		p, ok := s.poss[v.info.Uses[t]]
+		return p, ok
+	case *ast.BinaryExpr:
+		if t.Op == token.ADD {
+			for _, pr := range [][2]ast.Expr{{t.X, t.Y}, {t.Y, t.X}} {
+				if p, ok := v.posVal(s, pr[0]); ok {
+					if k, ok := v.evalInt(s, pr[1]); ok {
+						return lsPos{p.ep, p.off + int(k)}, true
+					}
+					if cl, ok := ast.Unparen(pr[1]).(*ast.CallExpr); ok && len(cl.Args) == 1 {
+						if tv, ok := v.info.Types[cl.Fun]; ok && tv.IsType() {
+							if k, ok := v.evalInt(s, cl.Args[0]); ok {
+								return lsPos{p.ep, p.off + int(k)}, true
+							}
+						}
+					}
+				}
+			}
+		}
+	case *ast.CallExpr:
+		if tv, ok := v.info.Types[t.Fun]; ok && tv.IsType() && len(t.Args) == 1 {
+			return v.posVal(s, t.Args[0])
+		}
+	}
+	return lsPos{}, false
+}
+
+// posDelta: a constant advance (token.Pos(k), k, token.Pos(len("lit"))).
+func (v *lsEval) posDelta(s *lsState, x ast.Expr) (int, bool) {
+	x = ast.Unparen(x)
+	if k, ok := v.evalInt(s, x); ok {
+		return int(k), true
+	}
+	if tv, ok := v.info.Types[x]; ok && tv.Value != nil && tv.Value.Kind() == constant.Int {
+		n, ok := constant.Int64Val(tv.Value)
+		return int(n), ok
+	}
+	return 0, false
+}
+
 // touches: does n write the cursor, the marker, the comment sinks, or a tracked local declared
 // outside n?
 func (v *lsEval) touches(n ast.Node, s *lsState) bool {
@@ -342,6 +453,12 @@ func (v *lsEval) touches(n ast.Node, s *lsState) bool {
 							hit = true
 						}
 						if _, ti := s.ints[o]; ti {
+							hit = true
+						}
+						if _, tp := s.poss[o]; tp {
+							hit = true
+						}
+						if s.alias[o] {
 							hit = true
 						}
 					}
@@ -469,8 +586,20 @@ func (v *lsEval) stmt(s *lsState, st ast.Stmt) {
 				v.fail("cursor decremented")
 				return
 			}
-			s.fresh = false
+			s.cur.off++
+			s.sync()
 			return
+		}
+		if id, ok := x.X.(*ast.Ident); ok {
+			if p, tracked := s.poss[v.info.Uses[id]]; tracked {
+				if x.Tok == token.INC {
+					p.off++
+				} else {
+					p.off--
+				}
+				s.poss[v.info.Uses[id]] = p
+				return
+			}
 		}
 		if id, ok := x.X.(*ast.Ident); ok {
 			if o := v.info.Uses[id]; o != nil {
@@ -516,7 +645,21 @@ func (v *lsEval) stmt(s *lsState, st ast.Stmt) {
 			case v.isField(l, "cursor"):
 				switch x.Tok {
 				case token.ADD_ASSIGN, token.ASSIGN:
-					s.fresh = false // the cursor moves forward (monotonicity is R-CURSOR's business)
+					// the cursor moves forward (monotonicity is R-CURSOR's business)
+					if x.Tok == token.ASSIGN {
+						if p, ok := v.posVal(s, r); ok {
+							s.cur = p
+						} else {
+							s.nextEp++
+							s.cur = lsPos{s.nextEp, 0}
+						}
+					} else if k, ok := v.posDelta(s, r); ok {
+						s.cur.off += k
+					} else {
+						s.nextEp++
+						s.cur = lsPos{s.nextEp, 0}
+					}
+					s.sync()
 					if x.Tok == token.ADD_ASSIGN && v.env.dObj != nil {
 						if v.c.ExprStr(r) == "token.Pos(len("+v.env.dObj.Name()+"))" {
 							s.advs++
@@ -527,12 +670,18 @@ func (v *lsEval) stmt(s *lsState, st ast.Stmt) {
 					return
 				}
 			case v.isField(l, "cursorAtNewLine"):
-				if !v.isField(r, "cursor") {
-					v.fail("marker set to %s, not to the cursor", v.c.ExprStr(r))
+				p, ok := v.posVal(s, r)
+				if !ok {
+					v.fail("marker set to %s, which is not a position derived from the cursor", v.c.ExprStr(r))
 					return
 				}
-				s.fresh = true
+				s.mark = p
+				s.sync()
 			case v.isField(l, "lines"):
+				// writing back a local that aliases the line table is not a line break
+				if id, ok := ast.Unparen(r).(*ast.Ident); ok && s.alias[v.info.Uses[id]] {
+					continue
+				}
 				s.breaks++
 			case v.isField(l, "comments"):
 				s.sinks = append(s.sinks, "file")
@@ -549,6 +698,43 @@ func (v *lsEval) stmt(s *lsState, st ast.Stmt) {
 					o = v.info.Uses[id]
 				}
 				if o == nil {
+					continue
+				}
+				if isTokenPos(o.Type()) {
+					if p, ok := v.posVal(s, r); ok && (x.Tok == token.ASSIGN || x.Tok == token.DEFINE) {
+						s.poss[o] = p
+					} else if x.Tok == token.ADD_ASSIGN {
+						if p, tracked := s.poss[o]; tracked {
+							if k, ok := v.posDelta(s, r); ok {
+								p.off += k
+								s.poss[o] = p
+							} else {
+								s.nextEp++
+								s.poss[o] = lsPos{s.nextEp, 0}
+							}
+						}
+					} else {
+						delete(s.poss, o)
+					}
+					continue
+				}
+				if _, isSlice := o.Type().Underlying().(*types.Slice); isSlice {
+					// lines := r.lines  /  lines = append(lines, …)
+					if v.isField(r, "lines") {
+						s.alias[o] = true
+						continue
+					}
+					if s.alias[o] {
+						if cl, ok := ast.Unparen(r).(*ast.CallExpr); ok && len(cl.Args) >= 1 {
+							if fid, ok := cl.Fun.(*ast.Ident); ok && fid.Name == "append" {
+								if aid, ok := ast.Unparen(cl.Args[0]).(*ast.Ident); ok && v.info.Uses[aid] == o {
+									s.breaks++
+									continue
+								}
+							}
+						}
+						delete(s.alias, o)
+					}
 					continue
 				}
 				if o == v.env.spaceObj {
@@ -806,7 +992,7 @@ func (e *Env) lineStateApplySpace() {
 				for _, after := range []bool{false, true} {
 					env := &lsEnv{space: consts[sp], bad: bad, after: after, nodeObj: params[0], posObj: params[1], spaceObj: params[2]}
 					ev := &lsEval{e: e, c: c, info: info, env: env}
-					st := &lsState{fresh: fresh, bools: map[types.Object]bool{}, ints: map[types.Object]int64{}}
+					st := newLsState(fresh)
 					ev.stmts(st, fd.Body.List)
 					key := fmt.Sprintf("applySpace(space=%s, at-fresh-line=%v, bad-node=%v, position=%s)", sp, fresh, bad, map[bool]string{true: "After", false: "Before"}[after])
 					if ev.undec != "" {
@@ -918,7 +1104,7 @@ func (e *Env) lineStateApplyDecorations() {
 					env := &lsEnv{end: end, hasField: hasField, pkgComment: pkgComment, dObj: dObj, endObj: params[3], nodeObj: params[0], nameObj: params[1], decsObj: params[2]}
 					envName := fmt.Sprintf("end=%v, node has a Comment field=%v, package comment=%v, fresh line on entry=%v", end, hasField, pkgComment, fresh0)
 					ev := &lsEval{e: e, c: c, info: info, env: env}
-					s0 := &lsState{fresh: fresh0, bools: map[types.Object]bool{}, ints: map[types.Object]int64{}}
+					s0 := newLsState(fresh0)
 					ev.stmts(s0, before)
 					if ev.undec != "" {
 						e.Run.Undecided("R-SPACE", key, pos, "before the loop: "+ev.undec)
@@ -1011,6 +1197,7 @@ func (e *Env) lineStateApplyDecorations() {
 									delete(nx.ints, o)
 								}
 							}
+							nx.rebase(func(o types.Object) bool { return loop.Body.Pos() <= o.Pos() && o.Pos() <= loop.Body.End() })
 							k := nx.key() + fmt.Sprint(ref)
 							if !seen[k] {
 								seen[k] = true
